@@ -33,6 +33,10 @@ type C14Case struct {
 	// one invocation for the whole query, the same value in every group
 	Grouped string `json:"grouped,omitempty"` // "" | select | having
 	Wrapped bool   `json:"wrapped,omitempty"`
+	// Cur: the select list starts with SETVAR('cur', a) and some calls take GETVAR('cur') as argument (query
+	// built WithVars): a call's arguments are what they are on its row when the row is evaluated, whenever the
+	// call itself runs
+	Cur bool `json:"cur,omitempty"`
 }
 
 func genC14(t *rapid.T) any {
@@ -139,12 +143,23 @@ func genC14(t *rapid.T) any {
 			}
 		}
 	}
+	if rapid.IntRange(0, 3).Draw(t, "cur") == 0 {
+		for i := range c.Items {
+			if (c.Items[i].Q == "" || c.Items[i].Q == "async") && c.Items[i].Arg == "a" && rapid.Bool().Draw(t, fmt.Sprintf("cur.i%d", i)) {
+				c.Items[i].Arg = "GETVAR('cur')"
+				c.Cur = true
+			}
+		}
+	}
 	return c
 }
 
 func (c *C14Case) sql(qualified bool) string {
 	epoch := injEpoch.Load()
 	var parts []string
+	if c.Cur {
+		parts = append(parts, "SETVAR('cur', a)")
+	}
 	parts = append(parts, "a AS ra", "s AS rs")
 	firstAsync := ""
 	for _, it := range c.Items {
@@ -263,7 +278,7 @@ func checkC14(c *C14Case) Result {
 		}
 	}()
 	sqlQ := c.sql(true)
-	out := Run(c.doc(), sqlQ, Opts{})
+	out := Run(c.doc(), sqlQ, Opts{Vars: c.Cur})
 	res.Execs++
 	// observations at the moment Exec returned
 	inj.mu.Lock()
@@ -308,6 +323,9 @@ func checkC14(c *C14Case) Result {
 		res.Labels = append(res.Labels, "completion-order:arrival")
 	}
 	res.NonTrivial = len(selected) >= 2 && gatedItems >= 1 && !identity
+	if c.Cur {
+		res.Labels = append(res.Labels, "argument-reads-a-register-written-per-row")
+	}
 
 	ctx := fmt.Sprintf("%s over %s (release order %v, completion order %v)", sqlQ, val.JSON(c.Rows), c.Order, finish)
 	if !out.OK() {
@@ -354,6 +372,8 @@ func checkC14(c *C14Case) Result {
 				if it.Q == "once" {
 					arg = onceArg[it.Tag]
 				}
+			case "GETVAR('cur')":
+				arg = row["a"] // written by the leading SETVAR('cur', a) of the same row
 			case "5":
 				arg = 5.0
 			case "2.5":
@@ -417,7 +437,7 @@ func checkC14(c *C14Case) Result {
 	// metamorphic: the same query with the qualifiers of value-bearing calls removed
 	injNewRun(nil)
 	sqlU := c.sql(false)
-	plain := Run(c.doc(), sqlU, Opts{})
+	plain := Run(c.doc(), sqlU, Opts{Vars: c.Cur})
 	res.Execs++
 	if !plain.OK() {
 		res.Discard = "unqualified comparison query fails: " + plain.Describe()
